@@ -46,6 +46,9 @@ struct Run {
 	cid: ChannelId,
 	events: Vec<ChainEv>,
 	tuples: Vec<String>,
+	/// the same tuples without the PaymentSent events (knowledge of a preimage cannot be retracted: a
+	/// client that saw a fork containing the claim legitimately knows more than one that did not)
+	tuples_no_sent: Vec<String>,
 	/// per comparison point: (tip hash, outpoints the nodes' monitors are still trying to claim)
 	claims: Vec<(bitcoin::BlockHash, String)>,
 	irreversible: Vec<String>,
@@ -115,7 +118,7 @@ fn execute(sc: &Script, style: SyncStyle, replay: Option<&[ChainEv]>, twin: bool
 	let mut w = World::new(vec![user_config(sc.ct), user_config(sc.ct)], 253);
 	w.style = style;
 	let cid = w.open_channel(0, 1, 1_000_000, 400_000_000);
-	let mut run = Run { w, cid, events: Vec::new(), tuples: Vec::new(), claims: Vec::new(), irreversible: Vec::new(), spendable_heights: Vec::new() };
+	let mut run = Run { w, cid, events: Vec::new(), tuples: Vec::new(), tuples_no_sent: Vec::new(), claims: Vec::new(), irreversible: Vec::new(), spendable_heights: Vec::new() };
 	let funding = run.w.chan(0, &cid).and_then(|c| c.funding_txo).map(|o| bitcoin::OutPoint { txid: o.txid, vout: o.index as u32 });
 	let w = &mut run.w;
 	w.send_payment(0, &[(1, cid)], 50_000_000, ClaimPolicy::Hold);
@@ -212,6 +215,7 @@ fn execute(sc: &Script, style: SyncStyle, replay: Option<&[ChainEv]>, twin: bool
 		// are told the new best block at the next connection
 		if batch && !at_end && since_sync < 3 && !force_sync {
 			run.tuples.push(String::new());
+			run.tuples_no_sent.push(String::new());
 			run.claims.push((w.chain.blocks.last().unwrap().header.block_hash(), String::new()));
 			continue;
 		}
@@ -289,6 +293,8 @@ fn execute(sc: &Script, style: SyncStyle, replay: Option<&[ChainEv]>, twin: bool
 		let claims = format!("claims={:?};", pending_claims);
 		run.claims.push((w.chain.blocks.last().unwrap().header.block_hash(), claims.clone()));
 		run.tuples.push(format!("{}{}", claims, tuple(w, &cumulative)));
+		let no_sent: BTreeMap<String, u32> = cumulative.iter().filter(|(k, _)| !k.contains("PaymentSent")).map(|(k, v)| (k.clone(), *v)).collect();
+		run.tuples_no_sent.push(format!("{}{}", claims, tuple(w, &no_sent)));
 	}
 	run.irreversible = cumulative.keys().filter(|k| k.contains("SpendableOutputs") || k.contains("PaymentFailed") || k.contains("PaymentSent")).cloned().collect();
 	Ok(run)
@@ -386,6 +392,7 @@ pub fn run_script(sc: &Script) -> Result<ScriptResult, String> {
 			}
 		}
 	}
+	let first_disc = reference.events.iter().position(|e| matches!(e, ChainEv::Disconnect(_)));
 	for style in SyncStyle::all() {
 		if style == SyncStyle::ListenFull {
 			continue;
@@ -404,8 +411,12 @@ pub fn run_script(sc: &Script) -> Result<ScriptResult, String> {
 				continue;
 			}
 			res.comparisons += 1;
-			if *t != reference.tuples[i] {
-				let (a, b) = (&reference.tuples[i], t);
+			// between the first disconnection and the end of the script the clients may differ in what they
+			// learned from the doomed blocks (a preimage seen there stays known); at the end all must agree
+			let in_reorg_window = first_disc.map(|f| i >= f).unwrap_or(false) && i + 1 < r.tuples.len();
+			let (ta, tb) = if in_reorg_window { (&reference.tuples_no_sent[i], &r.tuples_no_sent[i]) } else { (&reference.tuples[i], t) };
+			if ta != tb {
+				let (a, b) = (ta, tb);
 				let pos = a.bytes().zip(b.bytes()).position(|(x, y)| x != y).unwrap_or(a.len().min(b.len()));
 				let lo = pos.saturating_sub(120);
 				res.violations.push((
